@@ -83,7 +83,7 @@ class Unit:
 
 def parse_vspec(path):
     u = Unit()
-    lines = _apply_defines(_read_with_imports(path))
+    lines = _apply_defines(_apply_flags(_read_with_imports(path)))
     # @foreach X in a b c ... @endforeach  (textual repetition with $X substitution)
     lines = _expand_foreach(lines)
     i = 0
@@ -220,7 +220,7 @@ def parse_vspec(path):
                 cur_fn.guards.append((parts[0].split(), parts[1], parts[2]))
             elif d == "@hint":
                 m = re.match(r"(after|before)\s+`(.*)`\s*$", rest)
-                m2 = re.match(r"(loopstart|loopend|loopbefore|bodystart)\s*(\d*)\s*$", rest)
+                m2 = re.match(r"(loopstart|loopend|loopbefore|bodystart|bodyend|return)\s*(\d*)\s*$", rest)
                 if not m and not m2:
                     raise RsxError(f"{path}:{i+1}: bad @hint")
                 b, i = block(i + 1)
@@ -318,6 +318,24 @@ def _apply_defines(lines):
                     k = ln.find("$" + name + "(")
             if not changed:
                 break
+        out.append(ln)
+    return out
+
+
+def _apply_flags(lines):
+    """`@flag NAME` (anywhere in the unit) switches on the lines written `@if NAME <line>` and switches off the
+    lines written `@ifnot NAME <line>`: one shared part file can be verified from two sides (assume-guarantee)."""
+    flags = {ln.split()[1] for ln in lines if ln.strip().startswith("@flag ") and len(ln.split()) > 1}
+    out = []
+    for ln in lines:
+        st = ln.strip()
+        if st.startswith("@flag "):
+            continue
+        m = re.match(r"@(if|ifnot)\s+(\w+)\s+(.*)$", st)
+        if m:
+            if (m.group(2) in flags) == (m.group(1) == "if"):
+                out.append(m.group(3))
+            continue
         out.append(ln)
     return out
 
@@ -500,7 +518,7 @@ def build_item(u, spec, twin, gen):
     if "R1" not in skip:
         rules.r1_attributes(text, m, red)
     if "R2" not in skip:
-        rules.r2_apit(text, m, red, kept_fns)
+        rules.r2_apit(text, m, red, kept_fns, dyn_too="R21" in spec.extra_rules)
     if "R4" not in skip:
         rules.r4_debug_assert_eq(text, m, red)
     if "R5" not in skip:
@@ -687,6 +705,17 @@ def build_item(u, spec, twin, gen):
             for (where, anchor, htext) in fs.hints:
                 if where == "bodystart":
                     ed.add(f.body_s + 1, f.body_s + 1, "\n" + htext + "\n", "S-hint", prio=3)
+                    continue
+                if where == "bodyend":
+                    # in front of the closing brace of the body (the fall-through exit)
+                    ed.add(f.body_e - 1, f.body_e - 1, htext + "\n    ", "S-hint", prio=-3)
+                    continue
+                if where == "return":
+                    # in front of the n-th `return` keyword of the body (closures and nested fns included in the count)
+                    rets = [k for k in body_toks if itoks[k].kind == "id" and itoks[k].text == "return"]
+                    if anchor < 1 or anchor > len(rets):
+                        raise RsxError(f"HINT ANCHOR LOST in {spec.header}::{f.name}: `return` #{anchor} (function has {len(rets)})")
+                    ed.add(itoks[rets[anchor - 1]].s, itoks[rets[anchor - 1]].s, htext + "\n            ", "S-hint", prio=-3)
                     continue
                 if where in ("loopstart", "loopend", "loopbefore"):
                     if anchor > len(lps):
